@@ -84,6 +84,7 @@ def apply_op(world, tr, op, viol, stats=None, check_model=True):
                 viol("I1 result length", f"{len(paths)} paths returned for {uris}, expected {len(ok)} (missing objects omitted)")
         got = []
         for u, p in zip(ok, paths):
+            tr.path[u] = p
             if not os.path.isfile(p):
                 viol("I1 exists", f"returned path for {u} does not exist")
                 got.append("ABSENT")
@@ -349,6 +350,8 @@ def run_bfs(unit):
                          "check": check, "mode": mode},
                         f"{check}: {what} after history {[key_of(o) for o in hist + [op]]} (limit {limit}, {mode})",
                     )
+                if vlist:
+                    continue  # an error state is reported, not expanded
                 if can_s not in seen:
                     seen.add(can_s)
                     states += 1
@@ -414,13 +417,20 @@ def run_one_schedule(uris, limit, prefix, prehistory):
     return res
 
 
-def explore_schedules(c, uris, limit, bound, prehistory, label):
-    """Iterative context bounding: all schedules with <= bound preemptions."""
+def explore_schedules(c, uris, limit, bound, prehistory, label, cap=20000):
+    """Iterative context bounding: all schedules with <= bound preemptions.  `cap` bounds the number of
+    executions of one exploration (never reached on the unchanged tree: 2-3 pool threads; an edit that
+    hands out one task per thread makes the free choices at thread ends factorial) - a capped
+    exploration is reported as capped (category schedule_cap_hit, evidence exhaustive=false)."""
     executions = 0
     outcomes = {}
     stack = [[]]
     seen_prefix = set()
     while stack:
+        if executions >= cap:
+            c.cat("schedule_cap_hit")
+            c.extra_flags = getattr(c, "extra_flags", set()) | {label}
+            break
         prefix = stack.pop()
         r = run_one_schedule(uris, limit, prefix, prehistory)
         executions += 1
@@ -475,14 +485,15 @@ def run_sched(unit):
     ws.close()
     for check, what in vl:
         c.violation({"engine": "sched", "request": label, "check": check, "mode": "sequential"}, f"{check}: {what}")
-    executions, outcomes = explore_schedules(c, uris, limit, unit["bound"], pre, label)
+    executions, outcomes = explore_schedules(c, uris, limit, unit["bound"], pre, label,
+                                             cap=3000 if unit["tier"] == "quick" else 20000)
     for (o, k), choices in outcomes.items():
         if o != repr(obs_seq) or k != repr(can_seq):
             c.violation({"engine": "sched", "request": label, "limit": limit, "choices": choices, "check": "I8 sequential!=parallel"},
                         f"I8: schedule {choices} of {label} gives {o[:200]} / {k[:200]}, sequential gives {repr(obs_seq)[:200]} / {repr(can_seq)[:200]}")
     # determinism self-check: replay the last schedule twice
     c.extra = {"schedules": executions, "distinct_schedule_outcomes": len(outcomes),
-               "preemption_bound": unit["bound"]}
+               "preemption_bound": unit["bound"], "schedule_explorations_capped": int(c.categories.get("schedule_cap_hit", 0))}
     c.nontriv(n=executions)
     c.case({"unit": unit["name"], "executions": executions, "outcomes": len(outcomes)})
     c.sample({"request": label, "preemption_bound": unit["bound"], "schedules": executions,
@@ -519,7 +530,7 @@ def run_unit(unit):
 
 
 def finalize(coverage, results, tier):
-    coverage["exhaustive"] = True
+    coverage["exhaustive"] = not coverage.get("schedule_explorations_capped")
     coverage.setdefault("states", 0)
     coverage.setdefault("transitions", 0)
     coverage["explanation"] = (
